@@ -38,14 +38,8 @@ def getOptTerm (s : String) : Except String (Option Term) :=
   | '=' :: r => (getTerm (String.ofList r)).map some
   | _ => .error "bad-opt-term"
 
-def outNat : Out Nat → String
-  | .ok n => toString n
-  | .panic => "panic"
-
-def outBool : Out Bool → String
-  | .ok true => "1"
-  | .ok false => "0"
-  | .panic => "panic"
+def hintText (h : Nat × Option Nat) : String :=
+  toString h.1 ++ "/" ++ (match h.2 with | some n => toString n | none => "none")
 
 def intsText (l : List Int) : String := if l.isEmpty then "-" else ",".intercalate (l.map toString)
 
@@ -152,15 +146,19 @@ def handleC20 : List String → Option String
     let v ← getInt v
     let k ← getNat k
     let (xs, it, ended) := r.walk k r.iter []
-    pure (s!"e={if r.isEmpty then 1 else 0} len={outNat r.len} c={outBool (r.contains v)} sh={outNat (r.sizeHint r.iter)} " ++
-      s!"it={intsText xs};{if ended then "end" else "more"} sh2={outNat (r.sizeHint it)}")
+    pure (s!"e={if r.isEmpty then 1 else 0} len={r.len} c={if r.contains v then 1 else 0} sh={hintText (r.sizeHint r.iter)} " ++
+      s!"it={intsText xs};{if ended then "end" else "more"} sh2={hintText (r.sizeHint it)}")
   -- Spec oracles on the implementation's answers
+  -- `len` is the Spec's count, saturated at usize::MAX (2^64 - 1) because the return type cannot hold more
   | ["c20rlen", f, l, s, got] => some <| run do
     let c := Spec.Range.count (← getInt f) (← getInt l) (← getInt s)
-    pure (if got == toString c then "ok" else s!"FAIL spec={c} impl={got}")
+    let want := toString (min c 18446744073709551615)
+    pure (if got == want then "ok" else s!"FAIL spec={c} impl={got}")
+  -- `size_hint` is (count, Some(count)), or (usize::MAX, None) when the count does not fit usize
   | ["c20rhint", f, l, s, got] => some <| run do
     let c := Spec.Range.count (← getInt f) (← getInt l) (← getInt s)
-    pure (if got == toString c then "ok" else s!"FAIL spec={c} impl={got}")
+    let want := if c ≤ 18446744073709551615 then s!"{c}/{c}" else "18446744073709551615/none"
+    pure (if got == want then "ok" else s!"FAIL spec={c} impl={got}")
   | ["c20rcont", f, l, s, v, got] => some <| run do
     let b := Spec.Range.mem (← getInt f) (← getInt l) (← getInt s) (← getInt v)
     let want := if b then "1" else "0"
@@ -174,6 +172,13 @@ def handleC20 : List String → Option String
     let xs := (List.range (min c k)).map (Spec.Range.nth f s)
     let want := intsText xs ++ ";" ++ (if c < k then "end" else "more")
     pure (if got == want then "ok" else s!"FAIL spec={want} impl={got}")
+  -- the constructors that normalise the module spelling
+  | ["c20new", "undef", m, f, a, r] => some <| run do
+    let e := UndefFn.new (← getHex m) (← getHex f) (← getInt a) (← getOptHex r)
+    pure s!"UF({hexOf e.module},{hexOf e.function},{e.arity},{optHexText e.reason})"
+  | ["c20new", "fncl", m, f, a, g] => some <| run do
+    let e := FnClause.new (← getHex m) (← getHex f) (← getInt a) (← getTerm g)
+    pure ("FC(" ++ optHexText e.module ++ "," ++ optHexText e.function ++ "," ++ optIntText e.arity ++ "," ++ optTermText e.args ++ ")")
   | "c20to" :: r => some <| run do
     let t ← toTermReq r
     pure t.text
